@@ -1,5 +1,7 @@
 package vapp
 
+import "sort"
+
 var EthKinds = []string{"ETH_LOCK", "ETH_LOCK", "ETH_REDEEM", "ETH_REPORT", "ETH_REPORT", "ETH_REPORT", "ETH_REPORT", "ETH_REPORT", "ETH_REPORT", "SEND"}
 
 // the external transactions a history talks about: a small fixed pool so that reports find
@@ -79,6 +81,84 @@ func familyEth(family, id string, g *Gen, blocks, maxTx int) *Scenario {
 	case "eth", "eth5", "erc20":
 		g.Hostile = 0.1
 		return g.Mixed(id, blocks, maxTx+2, EthKinds)
+	case "ethstory":
+		if blocks < 18 {
+			blocks = 18
+		}
+		return g.EthStory(id, blocks)
 	}
 	return nil
+}
+
+// EthStory builds a guided history of the lock / redeem trackers: every external transaction of the pool is submitted,
+// then all witnesses report on it - in one block, or threshold-many in one block and the others later, or one per
+// block - with the outcome decided beforehand (finality or failure, now and then a dissenter); after the deciding
+// report the remaining witnesses still report and witnesses that have voted report again, in the same block as the
+// deciding report and in the next ones; the same external transaction is submitted again later.  The bookkeeping
+// only steers; it is not an oracle.
+func (g *Gen) EthStory(id string, blocks int) *Scenario {
+	sc := &Scenario{ID: id, Genesis: g.G}
+	type ev struct {
+		h  int
+		tx STx
+	}
+	var evs []ev
+	add := func(h int, kind string, a A) {
+		if h < 1 || h > blocks {
+			return
+		}
+		if g.G.Erc20 {
+			a["erc"] = 1
+		}
+		evs = append(evs, ev{h, STx{Req: TxReq{Kind: kind, A: a}, Path: "honest"}})
+	}
+	report := func(h int, x extTx, by string, okv int) {
+		add(h, "ETH_REPORT", A{"tkind": x.kind, "towner": x.owner, "tamt": x.amt, "tn": x.n, "by": by, "ok": okv, "locker": x.owner})
+	}
+	wit := g.G.Witnesses
+	h := 1
+	for _, pi := range g.R.Perm(len(extPool)) {
+		x := extPool[pi]
+		kind := "ETH_LOCK"
+		if x.kind == "redeem" {
+			kind = "ETH_REDEEM"
+		}
+		add(h, kind, A{"owner": x.owner, "amt": x.amt, "n": x.n})
+		okv := g.R.Intn(2)
+		mode := g.R.Intn(3)
+		rh := h + 1 + g.R.Intn(2)
+		perm := g.R.Perm(len(wit))
+		for i, wi := range perm {
+			v := okv
+			if g.R.Intn(7) == 0 {
+				v = 1 - okv // a dissenter
+			}
+			report(rh, x, wit[wi], v)
+			if mode == 2 || (mode == 1 && i == len(wit)*2/3) {
+				rh++ // one per block / the deciding report closes its block
+			}
+		}
+		for k := g.rng(1, 3); k > 0; k-- { // witnesses that have voted report again
+			report(rh+g.R.Intn(2), x, g.pick(wit), okv)
+		}
+		if g.R.Intn(3) == 0 { // the same external transaction again
+			add(rh+g.R.Intn(3), kind, A{"owner": x.owner, "amt": x.amt, "n": x.n})
+		}
+		if g.R.Intn(4) == 0 {
+			g.curH = int64(h)
+			evs = append(evs, ev{h, g.Tx("SEND", false)})
+		}
+		h += 1 + g.R.Intn(3)
+	}
+	sort.SliceStable(evs, func(i, j int) bool { return evs[i].h < evs[j].h })
+	for h := 1; h <= blocks; h++ {
+		b := SBlock{DT: int64(g.rng(500000, 1500000)), Proposer: g.pick(g.vals)}
+		for _, e := range evs {
+			if e.h == h {
+				b.Txs = append(b.Txs, e.tx)
+			}
+		}
+		sc.Blocks = append(sc.Blocks, b)
+	}
+	return sc
 }
